@@ -7,6 +7,7 @@ pub mod c10;
 pub mod c14;
 pub mod c16;
 pub mod c18;
+pub mod c19;
 
 use crate::util::RunCtx;
 
@@ -21,6 +22,7 @@ pub fn run(ctx: &RunCtx) -> i32 {
         "C14" => c14::run(ctx),
         "C16" => c16::run(ctx),
         "C18" => c18::run(ctx),
+        "C19" => c19::run(ctx),
         other => {
             println!("MACHINERY-ERROR unknown property {}", other);
             2
